@@ -57,8 +57,8 @@ theorem funextCheck_sound (p p' : Program) (t : Nat) (n : String) (h : funextChe
   · rename_i d hd
     split at h
     · rename_i b hb
-      simp only [Bool.and_eq_true, beq_iff_eq, Bool.not_eq_true'] at h
-      exact ⟨d, b, hd, hb, progEq_sound _ _ h.1.1.1, h.1.1.2, h.1.2, h.2⟩
+      simp only [Bool.and_eq_true, beq_iff_eq, Bool.not_eq_true', decide_eq_true_eq] at h
+      exact ⟨d, b, hd, hb, progEq_sound _ _ h.1.1.1.1, h.1.1.1.2, h.1.1.2, h.1.2, h.2⟩
     · cases h
 
 /-- A pure (call-free) expression never changes the store or the printed output. -/
@@ -147,7 +147,7 @@ theorem fun_extract_sound_partial (p p' : Program) (t : Nat) (n : String)
     (h : IsFunExtract p p' t n) (hs : funSafe p p' t n = true) (k : Nat)
     (hk : bad (run false p k).1 = false) :
     ∃ m, (run false p' m).1 = (run false p k).1 ∧ (run false p' m).2.out = (run false p k).2.out := by
-  obtain ⟨d, b, hd, hb, h3, _, _, _⟩ := h
+  obtain ⟨d, b, hd, hb, h3, _, _, _, _⟩ := h
   simp only [funSafe, hd, hb, Bool.and_eq_true, bne_iff_ne, ne_eq, Option.isNone_iff_eq_none,
     List.all_eq_true] at hs
   obtain ⟨⟨⟨⟨⟨hn, psu⟩, nfree⟩, psf⟩, gfuns⟩, gtop⟩ := hs
@@ -209,6 +209,6 @@ example :
   simp [funextCheck, funSafe, fxOf, funCfg, FX.cfg, FX.f, FX.selOK, GFSeq, GF, GFFun, bokDest, callOf, varsE, arithE,
     progEq, WP, WSeq, W, fin, stripCfg, WCfg.i, WCfg.u, seqEq, exprEq, funsEq, enumsEq, hitsProg, hitsSeq, hits,
     hitsOf, freshProg, freshSeq, fresh, freshDest, destEq, funNames, nsLookup, findVariant, Machine.preludeEnums,
-    builtinNames, List.findIdx?_cons, Expr.id, WFun]
+    builtinNames, List.findIdx?_cons, Expr.id, WFun, expectedParams, fvE, dedup, pureGlobal, bokProg, bokSeq, bok]
 
 end C20
